@@ -107,7 +107,11 @@ func (c *consCase) source() string {
 	for _, l := range lines {
 		b.WriteString(l)
 	}
-	if c.Kind == "method" {
+	if c.Kind == "method" && c.LocalCtx && c.PName != "" && c.CLI == "" && c.Conv == "" && c.Meth == "" {
+		// siblings whose only parameter carries the name the neighbour declared as context: for them it is the source
+		// (a `goverter:context` line belongs to the method it is written on)
+		fmt.Fprintf(&b, "\tConvert(source In%s) Out\n\t// goverter:ignore C\n\tZSibling(%s In) Out\n\t// goverter:ignore C\n\tASibling(%s In) Out\n}\n\n", second, c.PName, c.PName)
+	} else if c.Kind == "method" {
 		fmt.Fprintf(&b, "\tConvert(source In%s) Out\n}\n\n", second)
 	} else {
 		fmt.Fprintf(&b, "\tConvert(source In) Out\n}\n\n")
@@ -243,6 +247,11 @@ func runConsumers(e *env) error {
 				obj := b.Lookup("example.org/cons/p", c.ConvName)
 				it := obj.Type().Underlying().(*types.Interface)
 				sig = it.Method(0).Type().(*types.Signature)
+				for k := 0; k < it.NumMethods(); k++ {
+					if it.Method(k).Name() == "Convert" {
+						sig = it.Method(k).Type().(*types.Signature)
+					}
+				}
 			} else {
 				sig = b.Lookup("example.org/cons/p", c.FuncNam).Type().(*types.Signature)
 			}
@@ -254,10 +263,15 @@ func runConsumers(e *env) error {
 			switch {
 			case oc.Stage == "config":
 				im = sx.H("err", sx.A(classifyParseErr(strings.TrimSpace(lastLine(oc.Err)))))
-			case oc.Conv == nil || len(oc.Conv.Methods) != 1:
+			case oc.Conv == nil || (len(oc.Conv.Methods) != 1 && len(oc.Conv.Methods) != 3):
 				im = sx.H("err", sx.A("no-config:"+oc.Stage))
 			default:
 				m := oc.Conv.Methods[0]
+				for _, mm := range oc.Conv.Methods {
+					if mm.Name == "Convert" {
+						m = mm
+					}
+				}
 				var def *method.Definition
 				switch c.Kind {
 				case "method":
